@@ -32,7 +32,7 @@ ASSUMPTIONS = [
     'errstate (the statement scopes the reactions profile only)',
 ]
 ANCHORS = ['ErrorProfile.test', 'ErrorProfile._handle_error', 'seterr', 'geterr', 'seterrcall', 'geterrcall', 'errcheck', 'errstate']
-REQUIRED = ['errstate_prebuilt_blocks',
+REQUIRED = ['loud_reactions_checked', 'errstate_prebuilt_blocks',
             'errstate_decorated_then_profile_changed', 'two_kind_reactions_checked', 'refused_calls_naming_all', 'steps_checked', 'errstate_decorated_calls',
             'errstate_exception_exits', 'refused_calls',
             'reaction_raise', 'reaction_ignore', 'reaction_warn',
@@ -653,6 +653,53 @@ def run_two_kinds(ctx, r, index):
     ctx.case(desc, True)
 
 
+def run_loud_reaction(ctx, r, index):
+    """The reaction itself may be loud: a warning while warnings are turned
+    into errors reaches the caller as that warning; a callback that raises
+    has still been invoked, exactly once, with the offending table."""
+    err = ctx.err
+    kind = KINDS[index % 7]
+    mode = ['warn-as-error', 'raising-callback'][(index // 7) % 2]
+    desc = {'loud_reaction': [kind, mode]}
+    _reset(err)
+    calls = []
+
+    def cb(t):
+        calls.append(t)
+        raise Boom('callback failed')
+    try:
+        prof = {k: 'ignore' for k in KINDS}
+        prof[kind] = 'warn' if mode == 'warn-as-error' else 'call'
+        err.seterr(**prof)
+        err.seterrcall(kind, cb)
+        got = None
+        with warnings.catch_warnings():
+            warnings.simplefilter('error')
+            try:
+                ctx.biom.Table(**_inputs(kind))
+            except Warning as w:
+                got = ('warning', str(w))
+            except Boom:
+                got = ('boom', None)
+            except ctx.TableException as e:
+                got = ('table-error', str(e))
+        if mode == 'warn-as-error':
+            if got != ('warning', MSG[kind]):
+                raise Violation('C20/warning-not-delivered', 'kind %s set to '
+                                'warn, warnings turned into errors: the '
+                                'caller saw %r, expected the warning %r' %
+                                (kind, got, MSG[kind]))
+        else:
+            if len(calls) != 1:
+                raise Violation('C20/reaction-call-ctor', 'kind %s set to '
+                                'call with a callback that raises: invoked '
+                                '%d times' % (kind, len(calls)))
+        ctx.count('loud_reactions_checked')
+    finally:
+        _reset(err)
+    ctx.case(desc, True)
+
+
 # ------------------------------------------------------------------- driver
 def calibrate_messages(ctx):
     """The text of each kind's message is not part of the property; what
@@ -713,6 +760,8 @@ def run_case(ctx, index):
         k = index - p['nexh'] - p['nrand']
         if k % 8 == 5:
             run_two_kinds(ctx, r, k // 8)
+        elif k % 16 == 7:
+            run_loud_reaction(ctx, r, k // 16)
         else:
             run_reaction(ctx, r, k)
         return
